@@ -58,8 +58,11 @@ func (er *ExchangeRate) Validate() error {
 
 // Convert performs the currency conversion defined by the exchange rate.
 func (er *ExchangeRate) Convert(amount num.Amount) num.Amount {
-	a := amount.Multiply(er.Amount)
 	z := er.To.Def().Zero()
+	// Multiply keeps the decimals of the amount: make sure there are at least
+	// as many as in the destination currency so that nothing is rounded away
+	// before the result is expressed in that currency.
+	a := amount.MatchPrecision(z).Multiply(er.Amount)
 	return a.Rescale(z.Exp()) // ensure scale always matches destination currency
 }
 
